@@ -808,7 +808,7 @@ func specHexVal(b byte) byte {
 //@ reveal C12.byte.tape
 //@ ensures opaque [C12.next.value] old(viewOK(s) && viewSep(s) && onTape(s) && len(s.peek) > 0 && view(s, 0) == tape(cursor(s))) && result1 == nil ==> result0 == tape(old(cursor(s))) && cursor(s) == old(cursor(s)) + 1 && viewOK(s) && viewSep(s)
 //@ ensures opaque [C12.next.value] old(viewOK(s) && viewSep(s) && onTape(s) && len(s.peek) == 0) && result1 == nil ==> result0 == tape(old(cursor(s))) && cursor(s) == old(cursor(s)) + 1 && viewOK(s) && viewSep(s)
-//@ ensures opaque [C12.next.tape.peeked] old(viewOK(s) && viewSep(s) && onTape(s) && len(s.peek) > 0) && result1 == nil ==> onTape(s)
+//@ ensures opaque [C12.next.tape.peeked] uses(C12.byte.tape) old(viewOK(s) && viewSep(s) && onTape(s) && len(s.peek) > 0) && result1 == nil ==> onTape(s)
 //@ ensures opaque [C12.next.tape.buffer] old(viewOK(s) && viewSep(s) && onTape(s) && len(s.peek) == 0) && result1 == nil ==> onTape(s)
 
 //@ func (*scanner).Peek
@@ -1141,3 +1141,30 @@ func asBool(o Object) Boolean {
 //@ ensures [C03.bind.underflow] old(depth(intp)) < 1 ==> isPSErr(result, eStackunderflow)
 //@ ensures [C03.bind.type] old(depth(intp)) >= 1 && !isType(old(top(intp, 0)), Procedure) ==> isPSErr(result, eTypecheck)
 //@ ensures [C03.bind.depth] depth(intp) == old(depth(intp))
+
+// C12/C05: Read (the byte source of readstring, i.e. of the binary charstring
+// data of a Type 1 font) hands out the next bytes of the input tape in order,
+// wherever the buffer boundaries fall.
+//@ define byteFrame(s) = onlyrefs(s.buf) && ref(s.buf) == old(ref(s.buf)) && ref(s.peek) == old(ref(s.peek))
+//@ define onTapeRaw(s) = forall j :: tpos() - avail(s) <= j && j < tpos() ==> (j - (tpos() - avail(s)) < len(s.peek) ==> s.peek[j - (tpos() - avail(s))] == tape(j)) && (j - (tpos() - avail(s)) >= len(s.peek) ==> s.buf[s.pos + (j - (tpos() - avail(s)) - len(s.peek))] == tape(j))
+//@ define readPre(s, p) = viewOK(s) && viewSep(s) && onTapeRaw(s) && ref(p) != ref(s.buf) && ref(p) != ref(s.peek)
+//@ func (*scanner).readByteRaw
+//@ ensures opaque [C12.raw.frame] old(!s.regurgitate) ==> byteFrame(s)
+//@ loop 1 invariant [C12.raw.frame] old(!s.regurgitate) ==> byteFrame(s)
+//@ func (*scanner).readByte
+//@ reveal C12.raw.frame
+//@ ensures opaque [C12.byte.frame] old(s.eexec == 0 && !s.regurgitate) ==> byteFrame(s)
+//@ func (*scanner).Next
+//@ reveal C12.byte.frame
+//@ ensures opaque [C12.next.frame] uses(C12.byte.frame) old(viewOK(s)) ==> onlyrefs(s.buf, s.peek) && ref(s.buf) == old(ref(s.buf)) && ref(s.peek) == old(ref(s.peek))
+//@ ensures opaque [C12.next.raw.peeked] uses(C12.byte.tape) old(viewOK(s) && viewSep(s) && onTapeRaw(s) && len(s.peek) > 0) && result1 == nil ==> result0 == tape(old(cursor(s))) && cursor(s) == old(cursor(s)) + 1 && viewOK(s) && viewSep(s) && onTapeRaw(s)
+//@ ensures opaque [C12.next.raw.buffer] uses(C12.byte.tape) old(viewOK(s) && viewSep(s) && onTapeRaw(s) && len(s.peek) == 0) && result1 == nil ==> result0 == tape(old(cursor(s))) && cursor(s) == old(cursor(s)) + 1 && viewOK(s) && viewSep(s) && onTapeRaw(s)
+//@ func (*scanner).Read
+//@ reveal C12.next.raw.peeked
+//@ reveal C12.next.raw.buffer
+//@ reveal C12.next.frame
+//@ ensures [C12.read.tape] old(readPre(s, p)) ==> (forall k :: 0 <= k && k < result0 ==> p[k] == tape(old(cursor(s)) + k)) && (result1 == nil ==> cursor(s) == old(cursor(s)) + result0)
+//@ loop 1 invariant [C12.read.mode] old(readPre(s, p)) ==> viewOK(s) && viewSep(s) && ref(s.buf) == old(ref(s.buf)) && ref(s.peek) == old(ref(s.peek))
+//@ loop 1 invariant [C12.read.ontape] old(readPre(s, p)) ==> onTapeRaw(s)
+//@ loop 1 invariant [C12.read.cursor] old(readPre(s, p)) ==> cursor(s) == old(cursor(s)) + n
+//@ loop 1 invariant [C12.read.bytes] old(readPre(s, p)) ==> (forall k :: 0 <= k && k < n ==> p[k] == tape(old(cursor(s)) + k))
